@@ -64,15 +64,30 @@ pub fn normalise_ref(p: &Pos) -> Pos {
 }
 
 /// every raw board (no validity assumption)
-pub fn validate_exact<S: Src, const SIDE: u8>(s: &mut S) {
+/// PART: 0 = everything; 1 = acceptance + truthful errors; 2 = normal form, derived sets, stored hash; 3 = idempotence
+pub fn validate_exact<S: Src, const SIDE: u8, const PART: u8>(s: &mut S) {
     crate::stubs::draw_hash_pool(s);
     let raw = any_raw(s, SIDE);
     let p = pos_of(&raw);
     let r = Board::try_from(raw);
     let want = validate_ref(&p);
     vnote!("raw fen={} accepted={} want={} err={:?}", raw.as_fen(), r.is_ok(), want, r.as_ref().err());
-    vassert!("accepted exactly when the validity conditions hold", r.is_ok() == want);
+    if PART <= 1 {
+        vassert!("accepted exactly when the validity conditions hold", r.is_ok() == want);
+    }
     match r {
+        Ok(b) if PART == 1 => {
+            let _ = b;
+        }
+        Err(_) if PART >= 2 => {}
+        Ok(b) if PART == 3 => {
+            let r2 = Board::try_from(*b.raw());
+            match r2 {
+                Ok(b2) => vassert!("validating the result again changes nothing", b2.raw() == b.raw()
+                    && b2.color(Color::White) == b.color(Color::White) && b2.color(Color::Black) == b.color(Color::Black)),
+                Err(_) => vassert!("validating the result again succeeds", false),
+            }
+        }
         Ok(b) => {
             vassert!("result differs from the input only by the documented normalisation", pos_of(b.raw()) == normalise_ref(&p));
             let rebuilt = crate::c03::sets_rebuilt(s, &b);
@@ -86,11 +101,13 @@ pub fn validate_exact<S: Src, const SIDE: u8>(s: &mut S) {
             }
             #[cfg(not(kani))]
             vassert!("stored hash is the from-scratch hash of the normalised raw board", b.zobrist_hash() == b.raw().zobrist_hash());
-            let r2 = Board::try_from(*b.raw());
-            match r2 {
-                Ok(b2) => vassert!("validating the result again changes nothing", b2.raw() == b.raw()
-                    && b2.color(Color::White) == b.color(Color::White) && b2.color(Color::Black) == b.color(Color::Black)),
-                Err(_) => vassert!("validating the result again succeeds", false),
+            if PART == 0 {
+                let r2 = Board::try_from(*b.raw());
+                match r2 {
+                    Ok(b2) => vassert!("validating the result again changes nothing", b2.raw() == b.raw()
+                        && b2.color(Color::White) == b.color(Color::White) && b2.color(Color::Black) == b.color(Color::Black)),
+                    Err(_) => vassert!("validating the result again succeeds", false),
+                }
             }
         }
         Err(ValidateError::TooManyPieces(c)) => {
